@@ -43,6 +43,7 @@ func (c01) Plan(tier string) []core.Segment {
 		{Gen: "lines", Profile: "default", Count: scale(tier, 100_000, 4_000_000)},
 		{Gen: "lines", Profile: "hostile", Count: scale(tier, 100_000, 4_000_000)},
 		{Gen: "patho", Count: gen.PathoCount(), Exhaustive: true},
+		{Gen: "bigdoc", Count: scale(tier, 1500, 40000), Desc: "8-40 KiB documents of many small blocks with NUL/CR/multi-byte bytes planted at 8 KiB multiples", Batch: 100},
 		{Gen: "prose", Count: scale(tier, 12, 120), Desc: "prose-like documents 8 KiB .. 2 MiB with NUL runs and CR at chunk edges", Batch: 1},
 	}
 }
